@@ -180,6 +180,8 @@ func (p *c17) directed(c fw.Case, cs *caseState) {
 		var chunk int
 		fmt.Sscanf(c.Directed, "reference-names-%d", &chunk)
 		p.directedReferenceNames(chunk, cs)
+	case c.Directed == "negative-indexes":
+		p.directedNegativeIndexes(cs)
 	case c.Directed == "pinned-corpus":
 		for _, src := range pinnedCorpus {
 			checkRaw(cs, src)
@@ -188,7 +190,7 @@ func (p *c17) directed(c fw.Case, cs *caseState) {
 }
 
 func directedNames() []string {
-	names := []string{"known-probes", "each-function-top", "literals", "templates-text", "pinned-corpus"}
+	names := []string{"known-probes", "each-function-top", "literals", "templates-text", "pinned-corpus", "negative-indexes"}
 	for i := 0; i < pairChunks; i++ {
 		names = append(names, fmt.Sprintf("pairs-%02d", i))
 	}
